@@ -4,6 +4,7 @@ import (
 	"bytes"
 	"fmt"
 	"reflect"
+	"sort"
 	"time"
 
 	"go.sia.tech/core/consensus"
@@ -793,6 +794,77 @@ func (c *lchain) boundaryProbes() []variant {
 				txn := types.Transaction{SiacoinInputs: []types.SiacoinInput{{ParentID: e.ID, UnlockConditions: o.uc}}, SiacoinOutputs: []types.SiacoinOutput{{Value: e.SiacoinOutput.Value, Address: c.addr1(0)}}}
 				c.signV1(&txn, map[types.Hash256]int{types.Hash256(e.ID): o.key}, false)
 				add(fmt.Sprintf("c08.v1-timelock%+d", -d), []types.Transaction{txn}, nil, d <= 0)
+			}
+		}
+	}
+	// unlock-condition timelocks of siafund inputs and of contract revisions; the timelock of a signature
+	if v1ok {
+		var sfids []types.SiafundOutputID
+		for id := range c.st().sfes {
+			sfids = append(sfids, id)
+		}
+		sort.Slice(sfids, func(i, j int) bool { return string(sfids[i][:]) < string(sfids[j][:]) })
+		for _, id := range sfids {
+			e := c.st().sfes[id]
+			o, ok := specialUCs[e.SiafundOutput.Address]
+			if !ok || o.key < 0 {
+				continue
+			}
+			if d := int64(o.uc.Timelock) - int64(child); d >= -1 && d <= 1 {
+				txn := types.Transaction{SiafundInputs: []types.SiafundInput{{ParentID: id, UnlockConditions: o.uc, ClaimAddress: c.addr1(0)}},
+					SiafundOutputs: []types.SiafundOutput{{Value: e.SiafundOutput.Value, Address: c.addr1(0)}}}
+				c.signV1(&txn, map[types.Hash256]int{types.Hash256(id): o.key}, false)
+				add(fmt.Sprintf("c08.v1-sf-timelock%+d", -d), []types.Transaction{txn}, nil, d <= 0)
+			}
+		}
+		var fcids []types.FileContractID
+		for id := range c.st().fces {
+			fcids = append(fcids, id)
+		}
+		sort.Slice(fcids, func(i, j int) bool { return string(fcids[i][:]) < string(fcids[j][:]) })
+		for _, id := range fcids {
+			fc := c.st().fces[id].FileContract
+			o, ok := specialUCs[fc.UnlockHash]
+			if !ok || o.key < 0 || fc.WindowStart < child || fc.RevisionNumber >= 1<<60 {
+				continue
+			}
+			if d := int64(o.uc.Timelock) - int64(child); d >= -1 && d <= 1 {
+				rev := fc
+				rev.RevisionNumber++
+				txn := types.Transaction{FileContractRevisions: []types.FileContractRevision{{ParentID: id, UnlockConditions: o.uc, FileContract: rev}}}
+				c.signV1(&txn, map[types.Hash256]int{types.Hash256(id): o.key}, false)
+				add(fmt.Sprintf("c08.v1-revise-timelock%+d", -d), []types.Transaction{txn}, nil, d <= 0)
+			}
+		}
+		if in, k, _, ok := c.plan().pickSC(types.Siacoins(1), true); ok {
+			for _, d := range []uint64{0, 1} {
+				txn := types.Transaction{SiacoinInputs: []types.SiacoinInput{{ParentID: in.ID, UnlockConditions: c.uc(k)}},
+					SiacoinOutputs: []types.SiacoinOutput{{Value: in.SiacoinOutput.Value, Address: c.addr1(k)}}}
+				tl := child + d
+				txn.Signatures = []types.TransactionSignature{{ParentID: types.Hash256(in.ID), CoveredFields: types.CoveredFields{WholeTransaction: true}, Timelock: tl}}
+				sig := c.keys[k].SignHash(cs.WholeSigHash(txn, types.Hash256(in.ID), 0, tl, nil))
+				txn.Signatures[0].Signature = sig[:]
+				add(fmt.Sprintf("c08.v1-sig-timelock%+d", -int64(d)), []types.Transaction{txn}, nil, d == 0)
+			}
+		}
+	}
+	// a v2 contract formed with its proof height at the child height (allowed) / one below (already passed)
+	if v2ok && child > 0 {
+		if in, o, ok := c.plan().pickV2(types.Siacoins(120)); ok {
+			for _, d := range []int64{-1, 0} {
+				rk, hk := 0, 1
+				fc := types.V2FileContract{ProofHeight: uint64(int64(child) + d),
+					RenterOutput:    types.SiacoinOutput{Value: types.Siacoins(5), Address: c.addr2(rk)},
+					HostOutput:      types.SiacoinOutput{Value: types.Siacoins(10), Address: c.addr2(hk)},
+					RenterPublicKey: c.keys[rk].PublicKey(), HostPublicKey: c.keys[hk].PublicKey(),
+					TotalCollateral: types.Siacoins(4), MissedHostValue: types.Siacoins(8)}
+				fc.ExpirationHeight = fc.ProofHeight + 2
+				c.signContract(&fc, rk, hk)
+				cost := fc.RenterOutput.Value.Add(fc.HostOutput.Value).Add(cs.V2FileContractTax(fc))
+				txn := types.V2Transaction{SiacoinInputs: []types.V2SiacoinInput{{Parent: in.Copy()}}, FileContracts: []types.V2FileContract{fc},
+					SiacoinOutputs: []types.SiacoinOutput{{Value: in.SiacoinOutput.Value.Sub(cost), Address: c.addr2(o.key % 3)}}}
+				c.signV2Inputs(&txn, []v2owner{o}, nil)
+				add(fmt.Sprintf("c08.v2-form-proofheight%+d", d), nil, []types.V2Transaction{txn}, d >= 0)
 			}
 		}
 	}
